@@ -614,6 +614,12 @@ func (l *IPFSLog) Join(otherLog iface.IPFSLog, size int) (iface.IPFSLog, error) 
 		if _, ok := l.Next.Get(e.GetHash().String()); ok {
 			mergedHeads[idx] = nil
 		}
+
+		// only an entry of this log can be one of its heads: a head of the other
+		// log that was not admitted above (it carries another log id) is dropped
+		if _, ok := l.Entries.Get(e.GetHash().String()); !ok {
+			mergedHeads[idx] = nil
+		}
 	}
 
 	l.heads = entry.NewOrderedMapFromEntries(mergedHeads)
